@@ -27,12 +27,29 @@ Theorem C13_atomic : forall tr p t f r,
 Proof. exact body_under_lock. Qed.
 Print Assumptions C13_atomic.
 
-(** while a handle returned by a successful get is held, no other thread calls into the index *)
+(** while a handle returned by a successful get is outstanding the mutex
+    stays with that thread ... *)
+Theorem C13_handle_keeps_lock : forall tr p t q r,
+  mutex_ok None tr = true -> (forall v, thread_wf v (thread_events v tr) = true) ->
+  tr = p ++ Return t true :: q ++ r -> ~ In (HandleRelease t) q ->
+  holder_after None (p ++ Return t true :: q) = Some t.
+Proof. exact holder_while_handle_held. Qed.
+Print Assumptions C13_handle_keeps_lock.
+
+(** ... hence no thread at all calls into the index before the handle is
+    released: the entry can neither change nor disappear *)
 Theorem C13_pinned : forall tr p t q u f r,
   mutex_ok None tr = true -> (forall v, thread_wf v (thread_events v tr) = true) ->
-  tr = p ++ Return t true :: q ++ Body u f :: r -> ~ In (HandleRelease t) q -> u = t.
-Proof. exact pinned_while_handle_held. Qed.
+  tr = p ++ Return t true :: q ++ Body u f :: r -> ~ In (HandleRelease t) q -> False.
+Proof. exact no_body_while_handle_held. Qed.
 Print Assumptions C13_pinned.
+
+(** non-vacuity of the hypotheses: a two-thread interleaving with a hit, a blocked writer and a miss *)
+Example C13_nonvacuous :
+  let tr := [Acquire 1; Body 1 "get_internal"; Return 1 true; HandleRelease 1; Acquire 2; Body 2 "insert_internal"; Release 2;
+             Return 2 false; Acquire 1; Body 1 "get_internal"; Release 1; Return 1 false]%string in
+  mutex_ok None tr = true /\ thread_wf 1 (thread_events 1 tr) = true /\ thread_wf 2 (thread_events 2 tr) = true.
+Proof. vm_compute. repeat split. Qed.
 
 (** the validator used on recorded histories is sound *)
 Theorem C13_lin_validator_sound : forall init h order,
